@@ -151,6 +151,16 @@ Definition to_float (fo : float_oracle) (n : num) : result fexpr :=
   | NInt z => if fl_fits fo z then ROk (FOfInt z) else RRaise OverflowError
   | NFloat f => ROk f
   end.
+(* try: float(n1), float(n2), ...   except OverflowError: return None   -- then continue with k *)
+Fixpoint try_float_conversions (fo : float_oracle) (ns : list num) (k : fres) : fres :=
+  match ns with
+  | [] => k
+  | n :: rest =>
+      match to_float fo n with
+      | ROk _ => try_float_conversions fo rest k
+      | RRaise e => catch_none OverflowError (Crash e)
+      end
+  end.
 (* comparisons of an int or a float with the int 0 never convert the int *)
 Definition num_sign (fo : float_oracle) (n : num) : fsign :=
   match n with
